@@ -372,10 +372,37 @@ def to_yaml(nodes: list, extra: Optional[dict] = None, extensions=("semantiva-ex
 
 
 # --------------------------------------------------------------------------- C03: sweep-centred cases
+def _string_sweep_case(g: "Gen") -> dict:
+    """Sweeps whose results are sensitive to operand ORDER and to the exact TYPE of each value (strings, 1 vs 1.0 vs
+    True, 0.0 vs -0.0): two sweep nodes of one pipeline whose expressions are commuted forms of each other (a + b vs
+    b + a on strings), and sequences with ==-equal but distinct items under str()."""
+    rng = g.rng
+    src = {"processor": "VSrc", "parameters": {"value": g.val()}}
+    pat = rng.choice(["commuted_twins", "equal_not_identical", "both"])
+    nodes = [src]
+    words = rng.sample(["ab", "cd", "x", "yz", "q"], 3)
+    if pat in ("commuted_twins", "both"):
+        variables = {"a": {"values": words[:2]}, "b": {"values": [words[2], "k"]}}
+        mode = rng.choice(["combinatorial", "by_position"])
+        e1, e2 = rng.choice([("a + b", "b + a"), ("a + b + a", "a + a + b"), ("(a + b) + b", "b + (b + a)")])
+        for ck, expr in (("tags1", e1), ("tags2", e2)):
+            nodes.append({"processor": "VTagProbe", "context_key": ck,
+                          "derive": {"parameter_sweep": {"parameters": {"tag": expr}, "variables": variables, "mode": mode}}})
+    if pat in ("equal_not_identical", "both"):
+        vals = rng.choice([[1, 1.0, True], [2, 2.0], [0.0, -0.0, 0], [1.0, 1, 1.0], [True, 1]])
+        expr = rng.choice(["str(n)", "str(n) + 'z'", "str((n, n))"])
+        mode = rng.choice(["combinatorial", "by_position"])
+        nodes.append({"processor": "VTagProbe", "context_key": "typed",
+                      "derive": {"parameter_sweep": {"parameters": {"tag": expr}, "variables": {"n": {"values": vals}}, "mode": mode}}})
+    return {"nodes": nodes, "ctx": {}, "data": rm.NODATA}
+
+
 def sweep_case(g: "Gen") -> dict:
     """A pipeline built around one derive.parameter_sweep node (all three wrapped kinds), embedded in a
     surrounding pipeline, with non-swept parameters placed in node config / context / default."""
     rng = g.rng
+    if g.chance(0.08):
+        return _string_sweep_case(g)
     kind = rng.choice(["source", "op", "op", "probe", "probe"])
     ctx: dict = {}
     list_keys = []
